@@ -48,6 +48,13 @@ TEMPLATES = [
     {"cls": "syntactic", "t": "from t | derive {x = case [a => «]»}"},
     {"cls": "syntactic", "t": "from t | derive {x = a || «}»"},
     {"cls": "syntactic", "t": "from t\nselect {a, b}\nderive {c = a +«}»"},
+    # errors the parser raises itself (Rich::custom over extra.span()): the span is a range of several tokens
+    {"cls": "syntactic", "t": "from t | «join side:left side:right u (==id)»"},
+    {"cls": "syntactic", "t": "type t = «{»..int, a = int}\nfrom t"},
+    # the span of a statement starts at the new-line (or start-of-file) token in front of it: not a token of its own
+    {"cls": "syntactic", "t": "«prql version:1\n»from t", "header": True, "check_tok": False},
+    {"cls": "syntactic", "t": "«prql foo:bar\n»from t", "header": True, "check_tok": False},
+    {"cls": "resolution", "t": "let x = 1«\nlet x = 2»\nfrom t", "check_tok": False},
     {"cls": "syntactic", "t": "from t | select {f\"{a« »+}\"}", "interp": True},
     {"cls": "syntactic", "t": "from t | select {f\"{«}»\"}", "interp": True},
     {"cls": "syntactic", "t": "from t | select {s\"{a« »b}\"}", "interp": True},
